@@ -33,6 +33,10 @@ def _profile(frame, event, arg):
             HISTORY.append((loc["cls"], loc["pandera_dtype_cls"], "dispatch", list(loc["dtypes"])))
 
 
+def clsname_of(c: Any) -> str:
+    return "%s.%s" % (c.__module__.split(".")[-1], c.__qualname__)
+
+
 def spelling(k: Any) -> str:
     if isinstance(k, str):
         return repr(k)
